@@ -179,7 +179,9 @@ func r19b(c *an.Ctx) {
 
 func r19c(c *an.Ctx) {
 	c.Rule("R19c", "PopMultiple is called with a positive constant batch bound", 1)
-	for _, s := range c.SitesOf(func(n string) bool { return strings.Contains(n, "common/event.FifoBuffer") && strings.HasSuffix(n, ").PopMultiple") }) {
+	for _, s := range c.SitesOf(func(n string) bool {
+		return strings.Contains(n, "common/event.FifoBuffer") && strings.HasSuffix(n, ").PopMultiple")
+	}) {
 		if strings.Contains(c.RelName(s.Fn), "_test") {
 			continue
 		}
